@@ -24,6 +24,15 @@ ENTITY = re.compile(r'&(#[0-9]{1,7}|#[xX][0-9a-fA-F]{1,6}|[A-Za-z][A-Za-z0-9]{0,
 ENTITY_LOOSE = re.compile(r'&([^\t\n\f <&#;]{1,32});')
 
 
+def _cells(line):
+    s_ = line.strip()
+    if s_.startswith('|'):
+        s_ = s_[1:]
+    if s_.endswith('|') and not s_.endswith('\\|'):
+        s_ = s_[:-1]
+    return len(re.split(r'(?<!\\)\|', s_))
+
+
 def why_not_inert(lines):
     """None if inert, else the name of the first rule that gives some character a meaning."""
     for i, l in enumerate(lines):
@@ -43,7 +52,11 @@ def why_not_inert(lines):
         if i > 0 and SETEXT.match(l):
             return 'setext-underline'
         if i > 0 and '-' in l and DELIMITER_ROW.match(l):
-            return 'table-delimiter-row'
+            # GFM: a table needs a header row with as many cells as the delimiter row. A delimiter-like line WITH a pipe under a
+            # line with another number of cells is nevertheless read as a table by this library (recorded finding of C03), so only
+            # pipe-less delimiter lines under a header with a different cell count are taken as inert
+            if '|' in l or _cells(lines[i - 1]) == _cells(l):
+                return 'table-delimiter-row'
         if l.endswith('  '):
             return 'hard-break'
         if l.endswith('\\') and i < len(lines) - 1:
